@@ -59,6 +59,23 @@ def cases(tier, seed):
         cost = 8 if kind.startswith(("lens", "tmatrix", "multi")) else 1
         out.append({"id": "cov-%d" % i, "kind": "cov", "ckind": kind, "cfg": cfg, "alpha": alpha, "pix": [int(rng.integers(-5, 6)), int(rng.integers(-5, 6))],
                     "shift": [float(rng.normal()), float(rng.normal())], "cost": cost})
+    # default call form on bent (L-shaped) clusters whose largest separation is close to the 30-radius rule: the theory
+    # HoloPy picks by itself must not depend on how the configuration is shifted, turned or mirrored
+    na = 16 if tier == "quick" else 300
+    for i in range(na):
+        o = scat.gen_optics(rng)
+        k = scat.kmed(o)
+        r = float(rng.uniform(0.5, 1.3)) / k
+        frac = [1 - 1e-9, 0.99, 0.9, 1 + 1e-9, 1.05, 0.75][i % 6]
+        leg = 30.0 * r * frac / math.sqrt(2.0)          # two legs at right angles: the hypotenuse is the largest separation
+        th0 = float(rng.uniform(0, 2 * math.pi))
+        e1 = np.array([math.cos(th0), math.sin(th0), 0.0]); e2 = np.array([-math.sin(th0), math.cos(th0), 0.0])
+        c0 = np.array([0.4, 0.7, float(rng.uniform(15, 30)) / k + 40 * r])
+        mem = [{"t": "sphere", "n": scat.gen_index(rng, o, False), "r": r * float(rng.uniform(0.6, 1.0)) if j else r, "c": [float(v) for v in c]}
+               for j, c in enumerate([c0, c0 + leg * e1, c0 + leg * e2])]
+        cfg = {"optics": o, "scat": {"t": "spheres", "members": mem}, "theory": {"t": "auto"}, "det": scat.gen_points(rng, n=6)}
+        out.append({"id": "auto-%d" % i, "kind": "cov", "ckind": "auto_cluster", "cfg": cfg, "alpha": [math.pi / 4, 0.3, 2.5, math.pi / 2][i % 4] if i % 2 else float(rng.uniform(0, 2 * math.pi)),
+                    "pix": [1, -2], "shift": [float(rng.normal()), float(rng.normal())], "cost": 10})
     ns = 40 if tier == "quick" else 800
     for i in range(ns):
         o = scat.gen_optics(rng, pol="axis")
@@ -135,7 +152,14 @@ def _run_cov(case):
     resid["mirror_field"] = relmax(fm.values, np.stack([F[:, 0], -F[:, 1], F[:, 2]], axis=1))
     th = cfg["theory"]["t"]
     resid = {"%s@%s" % (k, th): v for k, v in resid.items()}
-    return {"resid": resid, "flags": {}, "fmax": fnum(float(np.abs(f0.values).max()))}
+    flags = {}
+    if th == "auto":
+        from holopy.scattering.interface import determine_default_theory_for
+        chosen = [type(determine_default_theory_for(scat.build_scatterer(c["scat"]))).__name__
+                  for c in (pc, scat.shift_config(cfg, dx, dy), scat.rotate_config(pc, al, rotate_pol=True), scat.mirror_config(pc))]
+        flags["default_theory_same_under_transform"] = bool(len(set(chosen)) == 1)
+        return {"resid": resid, "flags": flags, "fmax": fnum(float(np.abs(f0.values).max())), "chosen": chosen}
+    return {"resid": resid, "flags": flags, "fmax": fnum(float(np.abs(f0.values).max()))}
 
 
 def _run_sym(case):
@@ -162,6 +186,8 @@ def _tol(case, key):
     if key.startswith("shift") and t != "Multisphere":
         # same dimensionless problem up to rounding of the shifted coordinates
         return 1e-9
+    if t == "auto":
+        return 3 * math.sqrt(1e-5)       # either Mie superposition or the iterative solver; the choice itself is a flag
     if t == "Multisphere":
         # iterative solver: the transformed centres differ by rounding, which can change the iteration count
         return 3 * math.sqrt(th.get("kw", {}).get("qeps1", 1e-5))   # truncation tolerance acts on efficiencies (quadratic in amplitude)
@@ -174,6 +200,9 @@ def _tol(case, key):
 
 def judge(case, obs):
     out = []
+    for k, v in obs.get("flags", {}).items():
+        if not v:
+            out.append({"mech": "auto.%s" % k, "detail": "theories chosen for (as given, shifted, rotated, mirrored): %s; alpha=%s" % (obs.get("chosen"), case.get("alpha"))})
     for k, v in obs["resid"].items():
         base = k.split("@")[0]
         t = _tol(case, base)
